@@ -527,7 +527,32 @@ func (f *File) ReadDir(n int) ([]fs.DirEntry, error) {
 	if f.real != nil {
 		return f.real.ReadDir(n)
 	}
-	return f.w.readDir(f.path)
+	return f.w.readDirRaw(f.path)
+}
+
+func (f *File) Readdir(n int) ([]fs.FileInfo, error) {
+	if f.real != nil {
+		return f.real.Readdir(n)
+	}
+	es, err := f.w.readDirRaw(f.path)
+	out := []fs.FileInfo{}
+	for _, e := range es {
+		fi, _ := e.Info()
+		out = append(out, fi)
+	}
+	return out, err
+}
+
+func (f *File) Readdirnames(n int) ([]string, error) {
+	if f.real != nil {
+		return f.real.Readdirnames(n)
+	}
+	es, err := f.w.readDirRaw(f.path)
+	out := []string{}
+	for _, e := range es {
+		out = append(out, e.Name())
+	}
+	return out, err
 }
 
 // ---------------------------------------------------------------- maps
